@@ -7,9 +7,12 @@ import (
 	"context"
 	"encoding/json"
 	"sort"
+	"strings"
 	"sync"
 	"testing"
 	"time"
+
+	"github.com/ansible/receptor/pkg/logger"
 )
 
 type adsMsgArg struct {
@@ -29,7 +32,98 @@ type adsArgs struct {
 
 func adsTime(t int64) time.Time { return time.Unix(100000+t, 0) }
 
+type adsOwnerArgs struct {
+	Svc   string `json:"svc"`
+	Other bool   `json:"other"` // a second advertised service stays open
+}
+
+// owner: a periodic advertisement round of the owning node during which the listener is closed — between the
+// collection of the advertised listeners and the sending of its advertisement (the logging call in front of the
+// send is the scheduling point).  The two messages the owner emits are then delivered to a fresh node in both orders.
+func adsOwner(raw json.RawMessage) interface{} {
+	var a adsOwnerArgs
+	if err := json.Unmarshal(raw, &a); err != nil {
+		panic(err)
+	}
+	svc := string(verifUnhex(a.Svc))
+	s, cancel := verifQuietNode("verif-owner", 30)
+	defer cancel()
+	ch := make(chan []byte, 4096)
+	ctx, cf := context.WithCancel(s.context)
+	s.connections["p1"] = &connInfo{ReadChan: make(chan []byte), WriteChan: ch, Context: ctx, CancelFunc: cf, Cost: 1,
+		lastReceivedData: time.Now(), lastReceivedLock: &sync.RWMutex{}, logger: s.Logger}
+	pc, err := s.ListenPacketAndAdvertise(svc, map[string]string{"type": "x"})
+	if err != nil {
+		return map[string]interface{}{"error": err.Error()}
+	}
+	if a.Other {
+		if _, err := s.ListenPacketAndAdvertise("stays", map[string]string{"type": "y"}); err != nil {
+			return map[string]interface{}{"error": err.Error()}
+		}
+	}
+	verifWaitFlood()
+	for len(ch) > 0 {
+		<-ch
+	}
+	fired := false
+	logger.RegisterLogger(func(level int, format string, v ...interface{}) {
+		if fired || !strings.HasPrefix(format, "Sending service advertisement") || len(v) == 0 {
+			return
+		}
+		if si, ok := v[0].(*ServiceAdvertisement); ok && si.Service == svc {
+			fired = true
+			_ = pc.Close()
+		}
+	})
+	ok := verifTimed(10*time.Second, func() { s.sendServiceAds() })
+	logger.RegisterLogger(nil)
+	if !ok {
+		return map[string]interface{}{"wedged": true}
+	}
+	verifWaitFlood()
+	var msgs [][]byte
+	var adTime, wdTime time.Time
+	for len(ch) > 0 {
+		b := <-ch
+		si := &serviceAdvertisementFull{}
+		if len(b) > 0 && b[0] == MsgTypeServiceAdvertisement && json.Unmarshal(b[1:], si) == nil && si.ServiceAdvertisement != nil && si.Service == svc {
+			msgs = append(msgs, b)
+			if si.Cancel {
+				wdTime = si.Time
+			} else {
+				adTime = si.Time
+			}
+		}
+	}
+	listed := []bool{}
+	for order := 0; order < 2; order++ {
+		obs, ocancel := verifQuietNode("verif-obs", 30)
+		seq := append([][]byte{}, msgs...)
+		if order == 1 {
+			for i, j := 0, len(seq)-1; i < j; i, j = i+1, j-1 {
+				seq[i], seq[j] = seq[j], seq[i]
+			}
+		}
+		for _, b := range seq {
+			_ = obs.handleServiceAdvertisement(b, "p1")
+		}
+		verifWaitFlood()
+		found := false
+		for _, ad := range obs.Status().Advertisements {
+			if ad.NodeID == "verif-owner" && ad.Service == svc {
+				found = true
+			}
+		}
+		listed = append(listed, found)
+		ocancel()
+	}
+	return map[string]interface{}{"fired": fired, "messages": len(msgs), "ad_not_after_withdrawal": !adTime.After(wdTime), "listed": listed}
+}
+
 func adsApply(op string, raw json.RawMessage) interface{} {
+	if op == "owner" {
+		return adsOwner(raw)
+	}
 	var a adsArgs
 	if err := json.Unmarshal(raw, &a); err != nil {
 		panic(err)
@@ -152,7 +246,14 @@ func adsGen(v *verifRun) {
 	}
 }
 
+func adsGenAll(v *verifRun) {
+	adsGen(v)
+	for i := 0; i < 4; i++ {
+		v.do(adsApply, "owner", adsOwnerArgs{Svc: verifHex([]byte([]string{"sa", "sb"}[i%2])), Other: i >= 2})
+	}
+}
+
 func TestVerifAds(t *testing.T) {
 	v := verifOpen(t, "ads")
-	v.run(adsApply, adsGen)
+	v.run(adsApply, adsGenAll)
 }
